@@ -11,7 +11,7 @@ for pid in "$@"; do
     [ -f $d/m$n.diff ] || continue
     demo=$d/m${n}_demo_test.go
     dir=url; grep -q "^package canonicalizer" $demo && dir=canonicalizer
-    race=""; grep -qi "race" $d/m$n.md && { [ "$pid" = "C14" ] || [ "$pid$n" = "C102" ]; } && race="-race"
+    race=""; grep -q -- "-race" $d/m$n.md && race="-race"   # harmless when the demonstration does not need it
     name=$pid-m$n
     echo "=== $name" >> $out
     [ -n "${SKIP_CONFIRM:-}" ] || /verif/tools/seed_confirm.sh $name $d/m$n.diff $demo $dir $race >> $out 2>&1
